@@ -29,6 +29,11 @@ CONFIG = {
 }
 QUERIES = ['c:c:n', '[C;D3]', 'C(=O)N', '[A]~[A]~[A]', '[N,O;D1]', 'C-;!@C', '[C;r6]:[C;r6]', 'CC.CC', 'c1ccccc1']
 _queries = None
+# unsymmetrical azolium / amidinium cations (charge placement is decided by atom order) and rings whose equivalent centres all carry labels
+EXTRA = ['CC[n+]1ccn(C)c1', 'C[n+]1ccn(Cc2ccccc2)c1', 'Cc1cc[nH+][nH]1', 'CCN1C=C[N+](C)=C1', 'CC(C)[n+]1ccn(C)c1', 'Cc1[nH]cc[nH+]1',
+         'Cn1cc[n+](c1)C[C@H](N)C(O)=O', 'C[n+]1ccn(c1)C[C@H](N)C(O)=O', 'CCn1cc[n+](C)c1C', 'Cc1ccc2[nH]c[nH+]c2c1', 'CN(C)C(C)=[N+](C)CC',
+         'C[C@H](N)Cn1cc[n+](CC)c1', 'F[C@H]1C[C@@H](F)C1', 'C[C@H]1CC[C@@H](C)CC1', 'C[C@H]1CC[C@H](C)CC1', 'O[C@H]1[C@H](O)[C@@H](O)[C@H](O)[C@@H](O)[C@@H]1O',
+         'C/C=C1/CC/C(=C\\C)CC1', 'O[C@H]1C[C@@H](O)C[C@H](O)C1', 'C[C@H]1C[C@@H](C)C1', 'F[C@H]1CC[C@@H](F)CC1.F[C@H]1CC[C@H](F)CC1']
 
 
 def worker_env(i):
@@ -41,37 +46,59 @@ def dg(x):
     return hashlib.blake2b(repr(x).encode(), digest_size=8).hexdigest()
 
 
-def observables(m):
-    """name -> value in a canonical *printable* form that keeps every order the library reports"""
+def _obs_table():
     global _queries
     if _queries is None:
         _queries = [(q, smarts(q)) for q in QUERIES]
-    out = {}
-    out['str'] = str(m)
-    out['atoms_order'] = sorted(m.atoms_order.items())
-    out['smiles_atoms_order'] = tuple(m.smiles_atoms_order)
-    out['chiral_morgan'] = sorted(m._chiral_morgan.items())
-    out['sssr'] = [tuple(r) for r in m.sssr]
-    out['components'] = [sorted(c) for c in m.connected_components]
-    out['linear_hash_set'] = sorted(m.linear_hash_set(1, 4, 4))
-    out['morgan_hash_set'] = sorted(m.morgan_hash_set(1, 3))
-    out['linear_bit_set'] = sorted(m.linear_bit_set(1, 4, 1024, 2, 4))
-    out['morgan_bit_set'] = sorted(m.morgan_bit_set(1, 3, 512, 3))
-    out['linear_fragments'] = sorted((k, sorted(v)) for k, v in m.linear_hash_smiles(1, 3, 2).items())
+    tab = [
+        ('str', lambda m: str(m)),
+        ('atoms_order', lambda m: sorted(m.atoms_order.items())),
+        ('smiles_atoms_order', lambda m: tuple(m.smiles_atoms_order)),
+        ('chiral_morgan', lambda m: sorted(m._chiral_morgan.items())),
+        ('format-no-stereo', lambda m: format(m, '!s')),
+        ('sssr', lambda m: [tuple(r) for r in m.sssr]),
+        ('components', lambda m: [sorted(c) for c in m.connected_components]),
+        ('linear_hash_set', lambda m: sorted(m.linear_hash_set(1, 4, 4))),
+        ('morgan_hash_set', lambda m: sorted(m.morgan_hash_set(1, 3))),
+        ('linear_bit_set', lambda m: sorted(m.linear_bit_set(1, 4, 1024, 2, 4))),
+        ('morgan_bit_set', lambda m: sorted(m.morgan_bit_set(1, 3, 512, 3))),
+        ('linear_fragments', lambda m: sorted((k, sorted(v)) for k, v in m.linear_hash_smiles(1, 3, 2).items())),
+    ]
     for name, q in _queries:
-        out['match:' + name] = [tuple(sorted(d.items())) for d in q.get_mapping(m, automorphism_filter=False, _cython=False)][:200]
-    out['match-self'] = [tuple(sorted(d.items())) for d in m.get_mapping(m, automorphism_filter=True)][:50]
-    out['stereo'] = sorted((repr(k), repr(v)) for k, v in T.stereo_descriptors(m).items())
-    out['tetrahedrons'] = (tuple(m.tetrahedrons), sorted(m.stereogenic_tetrahedrons.items()), [tuple(x) for x in m.cumulenes])
-    return out
+        tab.append(('match:' + name, lambda m, q=q: [tuple(sorted(d.items())) for d in q.get_mapping(m, automorphism_filter=False, _cython=False)][:200]))
+    tab += [
+        ('match-self', lambda m: [tuple(sorted(d.items())) for d in m.get_mapping(m, automorphism_filter=True)][:50]),
+        ('stereo', lambda m: sorted((repr(k), repr(v)) for k, v in T.stereo_descriptors(m).items())),
+        ('tetrahedrons', lambda m: (tuple(m.tetrahedrons), sorted(m.stereogenic_tetrahedrons.items()), [tuple(x) for x in m.cumulenes])),
+    ]
+    return tab
 
 
-def transforms(m):
+def observables(m, order=None):
+    """name -> value in a canonical *printable* form that keeps every order the library reports; `order` = 'reverse' or a
+    random.Random: the sequence in which the observables are read (a cached value must not depend on what was read before it)"""
+    tab = _obs_table()
+    if order == 'reverse':
+        tab = tab[::-1]
+    elif order is not None:
+        tab = tab[:]
+        order.shuffle(tab)
+    return {name: f(m) for name, f in tab}
+
+
+def transforms(m, warm=False):
     out = {}
     for name, f in (('canonicalize', lambda x: x.canonicalize()), ('standardize', lambda x: x.standardize()),
-                    ('neutralize', lambda x: x.neutralize()), ('kekule', lambda x: x.kekule())):
+                    ('neutralize', lambda x: x.neutralize()), ('kekule', lambda x: x.kekule()),
+                    ('standardize_charges', lambda x: x.standardize_charges()), ('fix_resonance', lambda x: x.fix_resonance())):
         c = m.copy()
         G._fix_slots(c)
+        if warm:        # every cached view is filled before the operation runs
+            try:
+                observables(c)
+                hash(c)
+            except Exception:
+                pass
         try:
             f(c)
             out[name] = (str(c), [(n, T.atom_rec(a)) for n, a in c.atoms()], [(n, k, b.order) for n, k, b in c.bonds()])
@@ -105,6 +132,9 @@ def worker(ctx):
     _random.Random(ctx.seed).shuffle(ids)
     src = [c[i] for k, i in enumerate(ids[:cfg['n_corpus']]) if k % groups == group]
     src += [s for k, (s, _) in enumerate(G.special()) if k % groups == group]
+    src += [s for k, s in enumerate(EXTRA) if k % groups == group]
+    dim = G.symmetric_dimers()
+    src += [s for k, s in enumerate(dim[ctx.seed % 7::7]) if k % groups == group]
     digests = {}
     for s in src:
         if ctx.out_of_time():
@@ -121,17 +151,18 @@ def worker(ctx):
             first = observables(m)          # uncached
             second = observables(m)         # cached
             m.flush_cache()
-            third = observables(m)          # after flush
+            third = observables(m, rng)     # after flush, read in another sequence
             cp = m.copy()
             G._fix_slots(cp)
-            fourth = observables(cp)        # on a copy
+            fourth = observables(cp, 'reverse')        # on a copy, read in the opposite sequence
+            fifth = observables(m, 'reverse')          # cached, opposite sequence
         except Exception as e:
             ctx.violation('observable-raises/%s' % type(e).__name__, '%s: %r' % (s, e), w)
             continue
         nontriv = bool(m.rings_count) or len(set(m.atoms_order.values())) < len(m)
         ctx.case(key=s, nontrivial=nontriv, n=0, sample={'smiles': s, 'hash_seed': seed_label, 'str': first['str']} if rng.random() < .01 else None)
         for name in first:
-            for label, other in (('cached-call', second), ('after-flush_cache', third), ('copy', fourth)):
+            for label, other in (('cached-call', second), ('after-flush_cache', third), ('copy', fourth), ('cached-call-other-sequence', fifth)):
                 ctx.count('within-process.comparisons')
                 ctx.evaluations += 1
                 if first[name] != other[name]:
@@ -139,11 +170,15 @@ def worker(ctx):
                                   '%s: %s first %s, %s %s' % (s, name, str(first[name])[:150], label, str(other[name])[:150]), w)
         tr = transforms(m)
         tr2 = transforms(m)
+        tr3 = transforms(m, warm=True)
         for name in tr:
             ctx.count('within-process.comparisons')
             ctx.evaluations += 1
             if tr[name] != tr2[name]:
                 ctx.violation('differs-within-process/repeated-call/%s' % name, '%s: %s' % (s, name), w)
+            elif tr[name] != tr3[name]:
+                ctx.violation('differs-within-process/cached-views-read-before/%s' % name, '%s: %s gives %s on a fresh copy, %s after its '
+                              'derived views were read' % (s, name, str(tr[name][0])[:80], str(tr3[name][0])[:80]), w)
         row = {k: dg(v) for k, v in first.items()}
         row.update({k: dg(v) for k, v in tr.items()})
         row['_str'] = first['str']
